@@ -410,6 +410,10 @@ def l64(maxfrag):
         assume(And(OL > Packet.MAX_PAYLOAD_SIZE, OL <= Packet.MAX_PAYLOAD_SIZE + Packet.MAX_FRAGMENT_SIZE))
         tx.send(other, retry, None)
         tx.outgoing_messages = []
+    if bool(symbool('mtu_changed_in_flight')):
+        # configuration at an unusual moment: the process-wide MTU is changed while the fragment awaits its retransmission;
+        # what was split under the old MTU must be re-sent as it was split
+        Packet.setMTU(symint('mtu_later', 512, 1500))
     k = choose(len(frags), 'timed_out_fragment')
     orig = frags[k]
     check(orig.callback is not None, 'fragment carries its sender callback')
@@ -433,11 +437,17 @@ def replay_l64(cfg, m):
         tx.send(os.urandom(m.get('other_len', 2000)), mode, None)
         tx.outgoing_messages = []
     k = [v for kk, v in m.items() if kk.startswith('timed_out_fragment')][0]
-    frags[k].callback(False)
-    if len(tx.outgoing_messages) != 1:
-        return True, 'not re-queued'
-    again = tx.outgoing_messages[0]
-    return again.payload != frags[k].payload, 'orig %d bytes, re-sent %d bytes' % (len(frags[k].payload), len(again.payload))
+    try:
+        if m.get('mtu_changed_in_flight'):
+            c.Packet.setMTU(m.get('mtu_later', 1500))
+        frags[k].callback(False)
+        if len(tx.outgoing_messages) != 1:
+            return True, 'not re-queued'
+        again = tx.outgoing_messages[0]
+        return again.payload != frags[k].payload, 'orig %d bytes, re-sent %d bytes%s' % (
+            len(frags[k].payload), len(again.payload), ' (MTU changed to %d in flight)' % m.get('mtu_later', 1500) if m.get('mtu_changed_in_flight') else '')
+    finally:
+        c.Packet.setMTU(1500)
 
 
 R.add('L6.4', l64, lambda tier: [dict(maxfrag=3 if tier == 'quick' else 5)], replay=replay_l64,
